@@ -1,10 +1,13 @@
 import TextxVerif.Wire
 import TextxVerif.Peg.Arp
+import TextxVerif.Peg.ArpUniform
 /-! Driver for the Arpeggio mirror.
 {"op":"parse","nodes":[{"k","kids","tok","ws","skipws","root","rule","sup","sep","eol"}…],"top":n,
  "comments":n|null,"memo":b,"skipws":b,"ws":"…","input":"…","toks":[[len|-1…]…],"fuel":n}
 → {"ok":tree} | {"nomatch":pos} | {"err":"fuel"|"bad-op"|"bad-model"}
 tree: null | ["t",node,pos,len] | ["n",node,[tree…]] | ["l",[tree…]]
+{"op":"uniformAt","nodes":[…],"comments":n|null,"skipws":b,"ws":"…"} → {"uniformAt":b}
+  (`Peg.uniformAtB`: the parser model is in the class for which C19 is proved, `Peg.UniformAt`)
 -/
 open Lean Wire Peg
 
@@ -62,6 +65,15 @@ def handle1 (j : Json) : Json :=
         | .noMatch p => Json.mkObj [("nomatch", toJson p)]
         | .fuel => fuelOut
         | .bad => Json.mkObj [("err", "bad-model")]
+    r.getD badOp
+  | some "uniformAt" =>
+    let r : Option Json := do
+      let nodes ← (← getArr? j "nodes").mapM parseNode
+      let comments ← optField j "comments" asNat?
+      let skipws ← getBool? j "skipws"
+      let ws ← getStr? j "ws"
+      let g : Grammar := { nodes := nodes, comments := comments, memo := false, input := #[], toks := #[] }
+      pure <| Json.mkObj [("uniformAt", toJson (uniformAtB g skipws ws.toList))]
     r.getD badOp
   | _ => badOp
 
